@@ -97,6 +97,7 @@ ML_PROPS = ["FitLikeFresh", "StaleOnlyAfterSetParam", "SaveLoadIdentity", "SaveS
 # actions that a gate switches off completely (excluded from the vacuity check)
 ML_GATED_ACTIONS = {"EqOther": "EqForeign"}
 
+_JVM = ("-XX:ParallelGCThreads=2", "-XX:CICompilerCount=2")     # modest CPU: TLC's defaults start one GC thread per core
 _ROOT = None          # scratch directory for files (set in run_part before workers fork)
 
 
@@ -530,22 +531,24 @@ def run_part(ctx):
     # ---- TrimMapping -------------------------------------------------------------------------------------------
     tm = lambda **kw: dict(dict(NOrig=3, NTrim=2, Slots=2, Files=1, MaxPairs=2, Depth=3, Emit=False, Variants=False, OpBudget=0),
                            **tg, **kw)
-    jobs.append(dict(module="TrimMapping", cwd=d, workers=2, coverage=True, timeout=900, java_opts=("-Xmx3g",),
+    jobs.append(dict(module="TrimMapping", cwd=d, workers=2, coverage=True, timeout=900, java_opts=("-Xmx3g",) + _JVM,
                      cfg=_cfg(d, "tm_mc.cfg", tm(Depth=3 if quick else 4), TM_INVS, TM_PROPS, "HistView"),
                      label="TrimMapping exhaustive (VIEW HistView) 3 original x 2 trimmed ids, 2 names, 1 file, depth %d"
                            % (3 if quick else 4)))
-    jobs.append(dict(module="TrimMapping", cwd=d, workers=1, timeout=900, java_opts=("-Xmx3g",),
-                     cfg=_cfg(d, "tm_op.cfg", tm(NOrig=2 if quick else 3, Emit=True), ["EmitInv"], [], "OpView"),
-                     label="TrimMapping every operation in every state of depth <= 2 (VIEW OpView), 2 names"))
-    jobs.append(dict(module="TrimMapping", cwd=d, workers=1, timeout=900, java_opts=("-Xmx3g",),
+    jobs.append(dict(module="TrimMapping", cwd=d, workers=1, timeout=900, java_opts=("-Xmx3g",) + _JVM,
+                     cfg=_cfg(d, "tm_op.cfg", tm(NOrig=2 if quick else 3, Emit=True, OpBudget=2 if quick else 0), ["EmitInv"], [],
+                              "OpView"),
+                     label="TrimMapping every operation in every state of depth <= 2 (VIEW OpView), 2 names%s"
+                           % (", no operation kind more than twice" if quick else "")))
+    jobs.append(dict(module="TrimMapping", cwd=d, workers=1, timeout=900, java_opts=("-Xmx3g",) + _JVM,
                      cfg=_cfg(d, "tm_tr.cfg", tm(NOrig=2, Slots=1 if quick else 2, Emit=True), ["EmitInv"], [], "TransView"),
                      label="TrimMapping every distinct transition (state before, operation, state after) of depth <= 3, "
                            "%d name(s), 1 file (VIEW TransView)" % (1 if quick else 2)))
-    jobs.append(dict(module="TrimMapping", cwd=d, workers=1, timeout=900, java_opts=("-Xmx2g",),
+    jobs.append(dict(module="TrimMapping", cwd=d, workers=1, timeout=900, java_opts=("-Xmx2g",) + _JVM,
                      cfg=_cfg(d, "tm_h2.cfg", tm(NOrig=2, Slots=1, Depth=2, Emit=True, Variants=True), ["EmitFull"]),
                      label="TrimMapping all histories of length 2, one name, every container form / entry point"))
     nw = 300 if quick else 3000
-    jobs.append(dict(module="TrimMapping", cwd=d, workers=1, timeout=900, java_opts=("-Xmx2g",),
+    jobs.append(dict(module="TrimMapping", cwd=d, workers=1, timeout=900, java_opts=("-Xmx2g",) + _JVM,
                      cfg=_cfg(d, "tm_sim.cfg", tm(NOrig=3, NTrim=3, Slots=3, Files=2, MaxPairs=2, Depth=8, Emit=True, Variants=True,
                                                   OpBudget=3), TM_INVS + ["EmitFull"]),
                      simulate="num=%d" % nw, extra=["-depth", "9"], seed=ctx.seed * 100 + 41,
@@ -555,26 +558,26 @@ def run_part(ctx):
     two = "{%d}" % (1 + (ctx.seed + 1) % 3)
     ml = lambda **kw: dict(dict(S=3, MaxT=1, MaxLen=3, MaxLag=2, Data="{1, 2, 3}", AnyNew=False, Variants=False, Depth=4,
                                 Emit=False, OpBudget=0), **mg, **kw)
-    jobs.append(dict(module="MSMLife", cwd=d, workers=2, coverage=True, timeout=1500, java_opts=("-Xmx3g",),
+    jobs.append(dict(module="MSMLife", cwd=d, workers=2, coverage=True, timeout=1500, java_opts=("-Xmx3g",) + _JVM,
                      cfg=_cfg(d, "ml_mc.cfg", ml(Depth=4 if quick else 5, Data=two if quick else "{1, 2, 3}"), ML_INVS, ML_PROPS,
                               "HistView"),
                      label="MSMLife exhaustive (VIEW HistView) catalogue assignment sets %s, depth %d"
                            % (two if quick else "{1, 2, 3}", 4 if quick else 5)))
-    jobs.append(dict(module="MSMLife", cwd=d, workers=1, timeout=1500, java_opts=("-Xmx3g",),
+    jobs.append(dict(module="MSMLife", cwd=d, workers=1, timeout=1500, java_opts=("-Xmx3g",) + _JVM,
                      cfg=_cfg(d, "ml_op.cfg", ml(Depth=3, Emit=True), ["EmitInv"], [], "TransView"),
                      label="MSMLife every distinct transition (state before, operation, state after) of depth <= 3 "
                            "(VIEW TransView)"))
-    jobs.append(dict(module="MSMLife", cwd=d, workers=2, coverage=True, timeout=1500, java_opts=("-Xmx3g",),
+    jobs.append(dict(module="MSMLife", cwd=d, workers=2, coverage=True, timeout=1500, java_opts=("-Xmx3g",) + _JVM,
                      cfg=_cfg(d, "ml_all.cfg", ml(S=2, MaxT=1 if quick else 2, MaxLen=3, Data="{}", AnyNew=True, Depth=2 if quick else 3),
                               ML_INVS, ML_PROPS, "HistView"),
                      label="MSMLife exhaustive over EVERY assignment set of the MSMObj scope S=2, any constructor configuration"))
     nm = 250 if quick else 2500
-    jobs.append(dict(module="MSMLife", cwd=d, workers=1, timeout=1500, java_opts=("-Xmx2g",),
+    jobs.append(dict(module="MSMLife", cwd=d, workers=1, timeout=1500, java_opts=("-Xmx2g",) + _JVM,
                      cfg=_cfg(d, "ml_sim.cfg", ml(AnyNew=True, Variants=True, Depth=9, Emit=True, OpBudget=2), ML_INVS + ["EmitFull"]),
                      simulate="num=%d" % nm, extra=["-depth", "10"], seed=ctx.seed * 100 + 43,
                      label="MSMLife %d simulated life cycles of length 9 (any constructor configuration)" % nm))
     dc = 4 if quick else 5
-    jobs.append(dict(module="MSMLife", cwd=d, workers=1, timeout=1500, java_opts=("-Xmx3g",),
+    jobs.append(dict(module="MSMLife", cwd=d, workers=1, timeout=1500, java_opts=("-Xmx3g",) + _JVM,
                      cfg=_cfg(d, "ml_cyc.cfg", ml(Data="{%d}" % (1 + ctx.seed % 3), Depth=dc, Emit=True, OpBudget=1),
                               ["EmitFull"], [], "TransView"),
                      label="MSMLife every life cycle of %d different operations on catalogue set %d (VIEW TransView)"
